@@ -15,7 +15,7 @@ import z3
 import e2
 import miniregex
 from common import Report, build_native, seed
-from mir_exec import (Agg, SBool, SInt, Slice, Str, StringBuf, Unsupported, VecBuf, find_method, load_program, new_ref)
+from mir_exec import (Agg, Opaque, SBool, SInt, Slice, Str, StringBuf, Unsupported, VecBuf, find_method, load_program, new_ref)
 from mir_models import (Models, as_items, as_str, bytes_to_str, char_eq, deref, err, ok, sbool, str_as_bytes, z_and, z_not, z_or)
 
 NAT = None
@@ -299,6 +299,51 @@ class RegexModels(Models):
             return sbool(miniregex.search(text, chars))
         self.table.insert(0, (pyre.compile(r"^(?:regex::bytes::Regex::is_match|regex::Regex::is_match|ByteRegex::is_match|Regex::is_match|regex::regex::bytes::Regex::is_match|regex::regex::string::Regex::is_match)$"), rx_is_match))
 
+        # RegexBuilder: the options decide what `.` and friends consume — kept with the pattern
+        def rb_new(c, m, a):
+            r = rx_new(c, m, a)
+            if r.variant != "Ok":
+                return Agg("RegexBuilder", None, [None, {"bad": True}])
+            return Agg("RegexBuilder", None, [r.fields[0].fields[0], {}])
+        self.table.insert(0, (pyre.compile(r"^(?:regex::bytes::|regex::)?RegexBuilder::new$"), rb_new))
+
+        def rb_opt(c, m, a):
+            b = deref(a[0])
+            v = deref(a[1])
+            if not v.concrete:
+                raise Unsupported("symbolic regex option")
+            b.fields[1][m.group(1)] = bool(v.v)
+            return a[0]
+        self.table.insert(0, (pyre.compile(r"^(?:regex::bytes::|regex::)?RegexBuilder::(?!new$|build$)([a-z_]+)$"), rb_opt))
+
+        def rb_build(c, m, a):
+            b = deref(a[0])
+            if b.fields[1].get("bad"):
+                return err(Agg("RegexError", None, []))
+            import json as _json
+            return ok(Agg("Regex", None, [b.fields[0], Opaque(_json.dumps(b.fields[1], sort_keys=True))]))
+        self.table.insert(0, (pyre.compile(r"^(?:regex::bytes::|regex::)?RegexBuilder::build$"), rb_build))
+
+        def rx_is_match_opts(c, m, a):
+            rx = deref(a[0])
+            import json as _json
+            opts = _json.loads(rx.fields[1].what) if len(rx.fields) > 1 else {}
+            other = {k: v for k, v in opts.items() if not (k == "unicode")}
+            if any(v for v in other.values()):
+                raise Unsupported("regex options %s" % other)
+            if opts.get("unicode", True):
+                return rx_is_match(c, m, a)
+            # byte mode: the subject is a sequence of bytes, `.` consumes one byte
+            text = "".join(chr(ch.v) for ch in rx.fields[0].chars)
+            if any(ord(x) > 0x7f for x in text):
+                raise Unsupported("non-ASCII literal in a byte-mode regex")
+            subj = deref(a[1])
+            items = list(subj.items) if isinstance(subj, (Slice, VecBuf)) else list(str_as_bytes(c, as_str(subj)).items)
+            from mir_exec import mk_int
+            chars = [mk_int(z3.ZeroExt(24, b.z()), "char") if not b.concrete else SInt(b.v, "char") for b in items]
+            return sbool(miniregex.search(text, chars))
+        self.table.insert(0, (pyre.compile(r"^(?:regex::bytes::Regex::is_match|regex::Regex::is_match|ByteRegex::is_match|Regex::is_match|regex::regex::bytes::Regex::is_match|regex::regex::string::Regex::is_match)$"), rx_is_match_opts))
+
         def rx_replace_all(c, m, a):
             rx = deref(a[0])
             pat = "".join(chr(ch.v) for ch in rx.fields[0].chars)
@@ -509,6 +554,66 @@ def h_cram_glob(patterns, max_line):
                       bound="%d patterns; lines of <= %d ASCII chars" % (len(patterns), max_line))
 
 
+def h_cram_glob_rule(patterns):
+    """CramGlobRule::make(p).matches(line) on lines that also hold multi-byte characters: `?` is one character, not one byte"""
+    def drive(ctx, args):
+        """CramGlobRule::make(p) then matches(line); engine = miniregex with the options the rule builds its regex with"""
+        prog = ctx.program
+        r = ctx.call(find_method(prog, "rules/glob_cram.rs", "make"), [args[0]])
+        rule = unbox_rule(r)
+        if rule is None:
+            return Agg("tuple", None, [SBool(False), SBool(False)])
+        return Agg("tuple", None, [SBool(True), ctx.call(find_method(prog, "rules/glob_cram.rs", "matches"), [new_ref(rule), args[1]])])
+
+    def mk_setup(p, widths, nl):
+        def f(ctx):
+            from mir_models import utf8_bytes
+            chars = [ctx.sym_char("l_%d" % i, w) for i, w in enumerate(widths)]
+            for ch in chars:
+                ctx.add(ch.z() != 10)
+            ctx.notes["line_chars"] = chars
+            body = []
+            for ch in chars:
+                body += utf8_bytes(ctx, ch)
+            return [e2.concrete_str(p), Slice(body + ([NL] if nl else []), "u8")]
+        return f
+
+    def post(ctx, args, k, value):
+        if k != "return":
+            return False
+        made, m = value.fields
+        if not made.v:
+            return False             # every pattern of the family is a valid glob
+        p = "".join(chr(c.v) for c in args[0].chars)
+        spec = glob_ref(p, ctx.notes["line_chars"])
+        if m.concrete and isinstance(spec, bool):
+            return m.v == spec
+        return m.z() == (z3.BoolVal(spec) if isinstance(spec, bool) else spec)
+
+    def judge(a, nk, nv):
+        p, line = a[0], bytes(a[1])
+        text = (line[:-1] if line.endswith(b"\n") else line).decode("utf-8", "replace")
+        import re as pyre
+        rx = "".join(".*" if c == "*" else "." if c == "?" else pyre.escape(c) for c in p) if "\\" not in p else None
+        if rx is None:
+            return False, "", ""
+        want = pyre.fullmatch(rx, text, pyre.S) is not None
+        if nk == "return" and "Ok" in nv and nv["Ok"] != want:
+            return True, ("cram glob %r %s line %r although under `?` = one character, `*` = any run it %s"
+                          % (p, "matches" if nv["Ok"] else "does not match", line, "does" if want else "does not")), "cram-glob:%s" % ("multibyte" if any(b > 0x7f for b in line) else "ascii")
+        return False, "", ""
+    inputs = []
+    for p in patterns:
+        for widths in ([], [1], [2], [3], [1, 2], [2, 1], [2, 2], [4]):
+            for nl in (True, False):
+                inputs.append(("p=%r char-widths=%s nl=%s" % (p, widths, nl), mk_setup(p, widths, nl)))
+    h = e2.Harness("cram_glob_rule_characters", drive, inputs, post, native="rule_matches", judge=judge,
+                   describe="CramGlobRule: matches(line) ⇔ glob semantics counted in characters, also on multi-byte text",
+                   bound="%d patterns over {a, *, ?}; lines of <= 2 characters of every UTF-8 width, with/without final newline" % len(patterns))
+    h.models_cls = RegexModels
+    return h
+
+
 def run(pid, tier):
     global NAT
     rep = Report(pid, tier, "other")
@@ -571,6 +676,8 @@ def run(pid, tier):
     pats = sorted(set("".join(t) for n in range(0, (3 if q else 4) + 1) for t in itertools.product("a*?\\.", repeat=n)))
     hg = h_cram_glob(pats, 3 if q else 4)
     e2.process(rep, prog, NAT, hg, tier, to_native_args=lambda a: [a[0]])
+    hr = h_cram_glob_rule(sorted(set("".join(t) for n in range(0, (2 if q else 3) + 1) for t in itertools.product("a*?", repeat=n))))
+    e2.process(rep, prog, NAT, hr, tier, to_native_args=lambda a: ["glob-cram", a[0], a[1]], compare=rule_cmp)
     mism = 0
     nval = 0
     for _ in range(60):
